@@ -80,6 +80,10 @@ ALPHABETS["core"] = _alphabet(("A", "I", "F", "T", "W", "Xk", "X", "M", "CB"), (
 ALPHABETS["core2"] = _alphabet(("A", "I", "F", "T", "W", "Xk", "X", "M", "CB"), (0, 1))  # 17 symbols
 # interrupts: break / continue leave pushed scopes through an exception (docs/tag_reference.md#break, #continue)
 ALPHABETS["brk"] = _alphabet(("A", "B", "K", "F", "W", "IF"), (0,))  # 6 symbols
+# interrupts raised inside an included partial (or a tablerow body) and caught by the caller's loop
+ALPHABETS["xbrk"] = _alphabet(("A", "B", "K", "F", "T", "W", "Xw", "Xk", "X"), (0,))  # 9 symbols
+XBRK_ALPHAS = ("xbrk",)
+NIL_CAPABLE = ("A", "F", "T", "W", "Xw", "Xk", "Xf", "M")
 
 
 def allowed(kind: str, in_macro: bool, in_capture: bool, in_for: bool = False) -> bool:
@@ -135,7 +139,12 @@ def trees(alpha: str, k: int, in_macro: bool, in_capture: bool, in_for: bool = F
             if k == 1:
                 out.append((kind, name, ()))
         else:
-            kid_for = True if kind == "F" else (in_for if kind in ("W", "IF") else False)
+            if kind == "F" or (kind == "T" and alpha in XBRK_ALPHAS):
+                kid_for = True
+            elif kind in ("W", "IF") or (kind in INCLUDES and alpha in XBRK_ALPHAS):
+                kid_for = in_for
+            else:
+                kid_for = False
             for kids in forests(alpha, k - 1, in_macro or kind == "M", in_capture or kind == "CB", kid_for):
                 out.append((kind, name, kids))
     _TREE_MEMO[key] = out
@@ -148,6 +157,36 @@ def forest_size(f: Forest) -> int:
 
 def forest_depth(f: Forest) -> int:
     return max((1 + forest_depth(t[2]) for t in f), default=0)
+
+
+def interrupt_crosses(f: Forest, crossed: Optional[bool] = None) -> bool:
+    """True iff some break / continue reaches its loop through an include, or its loop is a tablerow.
+
+    Whether and how such an interrupt ends the loop is not documented, so for these programs only renders
+    whose probe sequence equals the model's (the interrupt did end the iteration) are compared."""
+    for kind, _, kids in f:
+        if kind in ("B", "K"):
+            if crossed:
+                return True
+            continue
+        if kind == "F":
+            sub: Optional[bool] = False
+        elif kind == "T":
+            sub = True
+        elif kind in INCLUDES:
+            sub = True if crossed is not None else None
+        elif kind in ("W", "IF"):
+            sub = crossed
+        else:
+            sub = None
+        if interrupt_crosses(kids, sub):
+            return True
+    return False
+
+
+def nil_positions(f: Forest) -> list[int]:
+    """Preorder indexes of the ops that can bind nil."""
+    return [k for k, t in enumerate(iter_nodes(f)) if t[0] in NIL_CAPABLE]
 
 
 def to_forest(o: Any) -> Forest:
@@ -164,6 +203,9 @@ def zz_global(max_ops: int = 6) -> dict[str, Any]:
     for k in range(max_ops):
         d[f"i{k}"] = f"i{k}"
         d[f"f{k}"] = [f"f{k}a", f"f{k}b"]
+        d[f"n{k}"] = [None, (k + 1) * 10 + 2]  # nil first item for a for / tablerow
+        d[f"g{k}"] = [None, f"f{k}b"]  # nil first item for include..for
+    d["none"] = None
     return d
 
 
@@ -179,7 +221,8 @@ class Compiled:
         self.names: tuple[str, str] = ("v", "w")
 
 
-def compile_program(forest: Forest, names: tuple[str, str] = ("v", "w")) -> Compiled:
+def compile_program(forest: Forest, names: tuple[str, str] = ("v", "w"), nil_ops: frozenset = frozenset()) -> Compiled:
+    """``nil_ops``: preorder indexes of ops that bind nil instead of their marker (first item for loops)."""
     c = Compiled()
     c.names = names
     counter = {"k": 0, "pid": 0}
@@ -208,41 +251,43 @@ def compile_program(forest: Forest, names: tuple[str, str] = ("v", "w")) -> Comp
         counter["k"] += 1
         n = names[ni] if ni is not None else None
         sub = chain + (KIND_WORD[kind],)
+        nil = k in nil_ops and kind in NIL_CAPABLE
         if kind == "A":
-            return (kind, n, k, None), f"{{% assign {n} = 'a{k}' %}}"
+            return (kind, n, k, None, nil), f"{{% assign {n} = nil %}}" if nil else f"{{% assign {n} = 'a{k}' %}}"
         if kind == "C":
-            return (kind, n, k, None), f"{{% capture {n} %}}c{k}{{% endcapture %}}"
+            return (kind, n, k, None, False), f"{{% capture {n} %}}c{k}{{% endcapture %}}"
         if kind == "I":
-            return (kind, n, k, None), f"<{k}:{{% increment {n} %}}>"
+            return (kind, n, k, None, False), f"<{k}:{{% increment {n} %}}>"
         if kind == "D":
-            return (kind, n, k, None), f"<{k}:{{% decrement {n} %}}>"
+            return (kind, n, k, None, False), f"<{k}:{{% decrement {n} %}}>"
         if kind == "B":
-            return (kind, n, k, None), "{% break %}"
+            return (kind, n, k, None, False), "{% break %}"
         if kind == "K":
-            return (kind, n, k, None), "{% continue %}"
+            return (kind, n, k, None, False), "{% continue %}"
         if kind == "CB":
             s, b = body(kids, sub, True)
-            return (kind, n, k, b), f"{{% capture {n} %}}{s}c{k}{{% endcapture %}}"
+            return (kind, n, k, b, False), f"{{% capture {n} %}}{s}c{k}{{% endcapture %}}"
         s, b = body(kids, sub, noprobe)
-        node = (kind, n, k, b)
+        node = (kind, n, k, b, nil)
         lo = (k + 1) * 10 + 1
+        items = f"zz.n{k}" if nil else f"({lo}..{lo + 1})"
         if kind == "F":
-            return node, f"{{% for {n} in ({lo}..{lo + 1}) %}}{s}{{% endfor %}}"
+            return node, f"{{% for {n} in {items} %}}{s}{{% endfor %}}"
         if kind == "T":
-            return node, f"{{% tablerow {n} in ({lo}..{lo + 1}) %}}{s}{{% endtablerow %}}"
+            return node, f"{{% tablerow {n} in {items} %}}{s}{{% endtablerow %}}"
         if kind == "W":
-            return node, f"{{% with {n}: 'w{k}' %}}{s}{{% endwith %}}"
+            return node, f"{{% with {n}: {'nil' if nil else repr('w' + str(k))} %}}{s}{{% endwith %}}"
         if kind == "IF":
             return node, f"{{% if true %}}{s}{{% endif %}}"
         if kind == "M":
-            return node, f"{{% macro m{k} {n} %}}{s}{{% endmacro %}}{{% call m{k} 'm{k}' %}}"
+            return node, f"{{% macro m{k} {n} %}}{s}{{% endmacro %}}{{% call m{k} {'nil' if nil else repr('m' + str(k))} %}}"
         c.partials[f"p{k}"] = s
         if kind == "Xw":
-            return node, f"{{% include 'p{k}' with zz.i{k} as {n} %}}"
+            return node, f"{{% include 'p{k}' with zz.{'none' if nil else 'i' + str(k)} as {n} %}}"
         if kind == "Xk":
-            return node, f"{{% include 'p{k}', {n}: 'k{k}' %}}"
+            return node, f"{{% include 'p{k}', {n}: {'nil' if nil else repr('k' + str(k))} %}}"
         if kind == "Xf":
-            return node, f"{{% include 'p{k}' for zz.f{k} as {n} %}}"
+            return node, f"{{% include 'p{k}' for zz.{'g' if nil else 'f'}{k} as {n} %}}"
         if kind == "X":
             return node, f"{{% include 'p{k}' %}}"
         raise AssertionError(kind)
@@ -274,6 +319,11 @@ class Ctx:
 Expected = tuple
 
 
+def txt(v: Any) -> str:
+    """nil renders as the empty string (a binding to nil is still a binding)."""
+    return "" if v is None else str(v)
+
+
 def resolve(ctx: Ctx, name: str, layers: dict[str, dict[str, str]], undef: str) -> Expected:
     live = sum(1 for b in ctx.blocks if name in b) + (name in ctx.locals) + (name in ctx.params) + sum(
         1 for ly in LAYERS if name in layers[ly]) + (name in BUILTINS) + (name in ctx.counters)
@@ -283,16 +333,16 @@ def resolve(ctx: Ctx, name: str, layers: dict[str, dict[str, str]], undef: str) 
                 return ("loopobj", None, "block", live)
             if b[name] is UNSPEC_LOOPOBJ:
                 return ("unspec", None, "forloop-inside-include-for", 0)
-            return ("=", str(b[name]), "block", live)
+            return ("=", txt(b[name]), "block", live)
     if ctx.is_macro and name in ctx.params and name in ctx.locals:
         return ("unspec", None, "macro-parameter-reassigned-in-body", 0)
     if name in ctx.locals:
-        return ("=", ctx.locals[name], "local", live)
+        return ("=", txt(ctx.locals[name]), "local", live)
     if name in ctx.params:
-        return ("=", ctx.params[name], "macro-param", live)
+        return ("=", txt(ctx.params[name]), "macro-param", live)
     for ly in LAYERS:
         if name in layers[ly]:
-            return ("=", layers[ly][name], LAYER_CLAUSE[ly], live)
+            return ("=", txt(layers[ly][name]), LAYER_CLAUSE[ly], live)
     if name in BUILTINS:
         return ("builtin", None, "builtin", live)
     if name in ctx.counters:
@@ -358,9 +408,9 @@ def interpret(c: Compiled, layers: dict[str, dict[str, str]], undef: str) -> lis
             ctx.blocks.pop()
 
     def run_op(node: Any, ctx: Ctx, out: Sink) -> None:
-        kind, n, k, b = node
+        kind, n, k, b, nil = node
         if kind == "A":
-            ctx.locals[n] = f"a{k}"
+            ctx.locals[n] = None if nil else f"a{k}"
         elif kind == "C":
             ctx.locals[n] = f"c{k}"
         elif kind == "B":
@@ -378,7 +428,7 @@ def interpret(c: Compiled, layers: dict[str, dict[str, str]], undef: str) -> lis
         elif kind in ("F", "T"):
             lo = (k + 1) * 10 + 1
             loopname = "forloop" if kind == "F" else "tablerowloop"
-            for item in (lo, lo + 1):
+            for item in (None if nil else lo, lo + 1):
                 try:
                     scoped(ctx, {loopname: LOOPOBJ, n: item}, b, out)
                 except _Continue:
@@ -386,18 +436,18 @@ def interpret(c: Compiled, layers: dict[str, dict[str, str]], undef: str) -> lis
                 except _Break:
                     break
         elif kind == "W":
-            scoped(ctx, {n: f"w{k}"}, b, out)
+            scoped(ctx, {n: None if nil else f"w{k}"}, b, out)
         elif kind == "Xw":
-            scoped(ctx, {n: f"i{k}"}, b, out)
+            scoped(ctx, {n: None if nil else f"i{k}"}, b, out)
         elif kind == "Xk":
-            scoped(ctx, {n: f"k{k}"}, b, out)
+            scoped(ctx, {n: None if nil else f"k{k}"}, b, out)
         elif kind == "Xf":
-            for item in (f"f{k}a", f"f{k}b"):
+            for item in (None if nil else f"f{k}a", f"f{k}b"):
                 scoped(ctx, {"forloop": UNSPEC_LOOPOBJ, n: item}, b, out)
         elif kind in ("X", "IF"):
             run_body(b, ctx, out)
         elif kind == "M":
-            run_body(b, Ctx(True, {n: f"m{k}"}, dict(ctx.counters)), out)
+            run_body(b, Ctx(True, {n: None if nil else f"m{k}"}, dict(ctx.counters)), out)
         elif kind == "CB":
             sub = Sink(True)
             run_body(b, ctx, sub)
@@ -456,7 +506,7 @@ def looks_builtin(text: str, undef: str) -> bool:
 def compare(expected: list[tuple[Any, ...]], actual_text: str, names: tuple[str, str], undef: str,
             probe_ctx: dict[int, str]) -> tuple[list[tuple[str, str, str, str]], dict[str, int]]:
     """-> ([(clause, observed, ctx, text)], stats).  One deviation per (clause, observed, ctx)."""
-    stats = {"compared": 0, "unspec": 0, "builtin": 0, "shadowed": 0}
+    stats = {"compared": 0, "unspec": 0, "builtin": 0, "shadowed": 0, "nil_shadows": 0}
     got = parse_output(actual_text)
     if [(t[0], t[1]) for t in got] != [(t[0], t[1]) for t in expected]:
         return [("output-shape", "tokens", "-", f"rendered {len(got)} probe/counter tokens in "
@@ -480,6 +530,8 @@ def compare(expected: list[tuple[Any, ...]], actual_text: str, names: tuple[str,
                 continue
             if ev[3] > 1:
                 stats["shadowed"] += 1
+                if ev[0] == "=" and ev[1] == "" and ev[2] != "undefined":
+                    stats["nil_shadows"] += 1
             clause = ev[2]
             if ev[0] == "builtin":
                 stats["builtin"] += 1
@@ -502,13 +554,15 @@ def compare(expected: list[tuple[Any, ...]], actual_text: str, names: tuple[str,
     return bads, stats
 
 
-def layers_for(names: tuple[str, str], masks: tuple[int, int]) -> dict[str, dict[str, str]]:
-    """masks: bit i of masks[j] set = layer LAYERS[i] binds names[j] (value '<layer><name>')."""
-    out: dict[str, dict[str, str]] = {ly: {} for ly in LAYERS}
+def layers_for(names: tuple[str, str], masks: tuple[int, int],
+               nil_layer: Optional[tuple[int, str]] = None) -> dict[str, dict[str, Any]]:
+    """masks: bit i of masks[j] set = layer LAYERS[i] binds names[j] (value '<layer><name>').
+    ``nil_layer`` = (name index, layer): that layer binds the name to nil/None instead."""
+    out: dict[str, dict[str, Any]] = {ly: {} for ly in LAYERS}
     for j, n in enumerate(names):
         for i, ly in enumerate(LAYERS):
             if masks[j] >> i & 1:
-                out[ly][n] = f"{ly}{n}"
+                out[ly][n] = None if nil_layer == (j, ly) else f"{ly}{n}"
     return out
 
 
